@@ -15,8 +15,8 @@ def run(cmd, cwd, timeout=600):
 demo = open(f"{src}/demo_test.go").read()
 m = re.search(r"//.*?((?:lib|cmd)/[\w/]+)", demo.split("\n")[0])
 pkgdir = m.group(1) if m else None
-mname = re.search(r"func (Test\w+)\(", demo)
-tname = mname.group(1) if mname else "Test"
+mnames = re.findall(r"^func (Test\w+)\(", demo, re.M)
+tname = "(" + "|".join(mnames) + ")" if mnames else "Test"
 if not pkgdir:
     pk = re.search(r"^package (\w+)", demo, re.M).group(1)
     sys.exit(f"cannot find package dir in first line of demo (package {pk})")
